@@ -3,3 +3,18 @@ check("C01",
       "Exploration: every generated (column type, value) and (Rust carrier, column type, value) case is encoded by the driver and compared with an independent reference encoder/strict decoder, and round-tripped through the driver's decoder from both driver and reference bytes. Held on everything generated; no claim beyond the generated space.",
       "Trusted: vkit::wire reference codec (written from the protocol spec and Cassandra's vector layout), proptest. Carrier family is finite; values >= 2 GiB not generated.",
       "DESIGN.md 2/C01")
+check("C03",
+      "property-based testing: differential against a one-shot transcription of Cassandra's Murmur3 + reference partition-key encoding; exhaustive chunk compositions",
+      "Exploration: for every generated key shape / marker permutation / chunking, the driver's token (statement path, hasher path, ClusterState path) equals the reference partitioner's. Exhaustive over all chunk compositions of inputs up to 10-14 bytes.",
+      "Trusted: vkit::wire::token (validated against published Cassandra token values), reference PREPARED encoder. Null key components and empty single keys are outside the domain (servers reject them).",
+      "DESIGN.md 2/C03")
+check("C11",
+      "property-based testing + exhaustive enumeration: differential against a u128 transcription of ScyllaDB's shard_of and brute-force port enumeration",
+      "Exploration with exhaustive sub-spaces: shard counts 1..=64 x msb 0..=63 over reference-computed boundary tokens, all port ranges inside three windows; random beyond (shard counts to 65535, any range in 1024..=65535).",
+      "Trusted: the u128 reference formula and brute-force port sets. msb_ignore > 63 is outside the domain.",
+      "DESIGN.md 2/C11")
+check("C15",
+      "model-based (stateful) property testing: histories of tablet updates and topology refreshes against a list model; exhaustive insert-only histories over a small universe",
+      "Exploration: every generated history is applied to the real ClusterState (through the cluster worker's update and maintenance entry points) and to a list model; ranges, replica identity, full and per-DC lookups compared after every step. Insert-only histories over a 6-point universe enumerated exhaustively to length 3/4.",
+      "Trusted: the list model written from the property statement; payloads produced by the reference encoder. Uses hook-built (pool-less) nodes.",
+      "DESIGN.md 2/C15")
